@@ -17,5 +17,7 @@ var readyIDs = map[string]bool{
 	"C01we": true, "C02we": true, "C17wti": true,
 	// scripted-server world (real client)
 	"C01wt": true, "C02wt": true, "C03wt": true, "C04wt": true, "C14wt": true, "C15wt": true, "C17wt": true,
+	// scripted-client world (real server)
+	"C12": true, "C26": true, "C01wts": true, "C02wts": true, "C03wts": true, "C04wts": true, "C14wts": true, "C15wts": true,
 	"C03": true, "C04": true, "C06": true, "C11": true, "C13": true, "C14": true, "C15": true, "C14we": true,
 }
